@@ -7,6 +7,9 @@
     encoder 1 = `RespCodec::encode`                 resp_optimized.rs:135
     encoder 2 = `RespParser::encode`                resp.rs:120
     encoder 3 = `encode_resp_into`                  production/connection_optimized.rs:1422
+    encoder 4 = `SimulatedConnection::encode_resp`  simulator/connection.rs:476
+    encoder 5 = `encode_resp_into`                  bin/server_persistent.rs:938 (+ its encode_error_into)
+    encoder 6 = `SimulatedReadBuffer::encode_command` (client side: commands as frames) simulator/connection.rs:99
 
   Bytes are `List Nat` (every element < 256 for inputs that exist; the model is total for
   any `Nat`).  `usize` arithmetic is that of a 64-bit *release* build: `+` wraps modulo
@@ -489,6 +492,11 @@ def encode3 (v : Val) : Bytes := encodeConnS true false v []
 /-- encoder 4, `SimulatedConnection::encode_resp` (simulator/connection.rs): the same buffer-appending
     text as `RespCodec::encode_into` over `RespValue` -/
 def encode4 (v : Val) : Bytes := encodeIntoS true v []
+/-- encoder 5, `encode_resp_into` of the binary src/bin/server_persistent.rs (its own copy of the
+    buffer-appending text; the harness compiles that very text, extracted by harness/build.rs) -/
+def encode5 (v : Val) : Bytes := encodeIntoS true v []
+/-- `encode_error_into` of src/bin/server_persistent.rs: ALWAYS `-ERR ` in front (no prefix table) -/
+def encodeErr5 (msg : Bytes) : Bytes := [45] ++ [69, 82, 82, 32] ++ sanitize true msg ++ crlf
 /-- the seeded variant of encoder 3: `RespValue::BulkString(None) | RespValue::Array(None)` in one arm -/
 def encode3Merged (v : Val) : Bytes := encodeConnS true true v []
 /-- the encoders as they were before the fix (lines copied verbatim) -/
